@@ -305,7 +305,7 @@ def r_decision(c):
                      ("pytato.array.concatenate", "concatenation"),
                      ("pytato.array.sparse_matmul", "sparse matmul")):
         f = m.func(qn)
-        c.check(any(r in ast.unparse(f) for r in ROUTERS), "R16-DECISION",
+        c.check(any(r in ast.unparse(g) for r in ROUTERS for g in m.scope(f)), "R16-DECISION",
                 qn.replace("pytato.", "", 1), f"uses-affine-comparison:{what}",
                 m.loc(m.module_of(f), f),
                 f"{what} no longer decides shape equality through the affine comparison")
